@@ -252,6 +252,19 @@ def r1(ctx):
                                  expected="no == / != on UserArguments / ADMMArguments", found=unparse(n))
                         break
     _shape_validations(ctx, ana, taint)
+    # numeric-kind tests on dtype.kind: a test that lets floats or signed integers through must let every real kind through
+    for fi in ana.prog.functions.values():
+        for n in Resolver.walk_own(fi.node):
+            if isinstance(n, ast.Compare) and len(n.ops) == 1 and isinstance(n.ops[0], (ast.In, ast.NotIn, ast.Eq, ast.NotEq)) \
+                    and isinstance(n.left, ast.Attribute) and n.left.attr == "kind" and isinstance(n.left.value, ast.Attribute) and n.left.value.attr == "dtype":
+                c_ = n.comparators[0]
+                kinds = set(c_.value) if isinstance(c_, ast.Constant) and isinstance(c_.value, str) else \
+                    {e.value for e in c_.elts if isinstance(e, ast.Constant) and isinstance(e.value, str)} if isinstance(c_, (ast.Tuple, ast.List, ast.Set)) else None
+                if kinds is None or not (kinds & {"f", "i", "u"}):
+                    continue
+                seen += 1
+                ctx.check({"f", "i", "u"} <= kinds, fi, f"`{unparse(n)}` tests for a real-valued dtype: floats, signed and unsigned integers alike", line=n.lineno,
+                          role=f"dtype-kind@{short(fi.qualname)}", expected="all of 'f', 'i', 'u' (and 'b' if wanted)", found="".join(sorted(kinds)))
     if seen == 0:
         ctx.ok("package", "no type dispatch on a user hyper-parameter anywhere (nothing can reject a scalar form)", role="none")
     ctx.note(f"taint: {sum(len(v) for v in taint.values())} parameters in {len([k for k, v in taint.items() if v])} functions may carry "
